@@ -2,8 +2,9 @@ import H2V.Lemmas.ConnCtlPView
 /-
   ConnCtlP, view lemmas part 1 — frame lemmas `view (f s …) = view s` for the rest of ConnStore.lean
   (`incNumSendStreams`, `incNumRecvStreams`, `decNumStreams`, `transitionAfter`) and for all of
-  ConnSend.lean (prioritize.rs / send.rs).  The only functions of ConnSend.lean that write a view
-  field are `sendRecvGoAway` (`smax`) and `sendApplyRemoteSettings` (`sInitWin`, `sPush`).
+  ConnSend.lean (prioritize.rs / send.rs) except `popFrame`, `prioBufferPendingLoop`, `prioBufferPending`
+  (ConnCtlPViewSend2.lean).  The only functions of ConnSend.lean that write a view field are
+  `sendRecvGoAway` (`smax`) and `sendApplyRemoteSettings` (`sInitWin`, `sPush`).
 -/
 set_option autoImplicit false
 set_option linter.unusedSimpArgs false
@@ -189,5 +190,229 @@ theorem decNumRemoteResetStreams_keep (c c' : Counts) (h : c.decNumRemoteResetSt
   induction fuel generalizing s with
   | zero => simp [Streams.clearPendingOpen]
   | succ n ih => unfold Streams.clearPendingOpen; view_auto
+
+@[simp] theorem view_popPendingOpen (s : Streams) : view s.popPendingOpen.1 = view s := by
+  unfold Streams.popPendingOpen; view_auto
+
+@[simp] theorem view_reclaimFrameInner (s : Streams) (f : DataFrame) : view (s.reclaimFrameInner f).1 = view s := by
+  unfold Streams.reclaimFrameInner; dsimp only; view_auto
+
+@[simp] theorem view_reclaimFrame (s : Streams) (w : Writer) : view (s.reclaimFrame w).1 = view s := by
+  unfold Streams.reclaimFrame; view_auto
+
+@[simp] theorem view_bufferOut (s : Streams) (w : Writer) (f : Streams.OutFrame) : view (s.bufferOut w f).1 = view s := by
+  unfold Streams.bufferOut; view_auto
+
+-- ===================================================================== send.rs
+
+@[simp] theorem view_sendOpenId (s : Streams) : view s.sendOpenId.1 = view s := by
+  unfold Streams.sendOpenId; view_auto
+
+@[simp] theorem view_sendHeaders (s : Streams) (id : Nat) (eos : Bool) (fields : List Hpack.Field) :
+    view (s.sendHeaders id eos fields).1 = view s := by
+  unfold Streams.sendHeaders; view_auto
+
+@[simp] theorem view_sendReserveLocal (s : Streams) : view s.sendReserveLocal.1 = view s := by
+  unfold Streams.sendReserveLocal; simp
+
+@[simp] theorem view_sendPushPromise (s : Streams) (parent pk pid : Nat) (fields : List Hpack.Field) :
+    view (s.sendPushPromise parent pk pid fields).1 = view s := by
+  unfold Streams.sendPushPromise; view_auto
+
+@[simp] theorem view_sendInterimInformationalHeaders (s : Streams) (id : Nat) (fields : List Hpack.Field) :
+    view (s.sendInterimInformationalHeaders id fields).1 = view s := by
+  unfold Streams.sendInterimInformationalHeaders; view_auto
+
+@[simp] theorem view_sendSendReset (s : Streams) (id : Nat) (reason : Reason) (init : Initiator) :
+    view (s.sendSendReset id reason init) = view s := by
+  unfold Streams.sendSendReset; dsimp only; view_auto
+
+@[simp] theorem view_scheduleImplicitReset (s : Streams) (id : Nat) (reason : Reason) :
+    view (s.scheduleImplicitReset id reason) = view s := by
+  unfold Streams.scheduleImplicitReset; view_auto
+
+@[simp] theorem view_sendTrailers (s : Streams) (id : Nat) (fields : List Hpack.Field) :
+    view (s.sendTrailers id fields).1 = view s := by
+  unfold Streams.sendTrailers; view_auto
+
+@[simp] theorem view_pollCapacity (s : Streams) (id : Nat) (tag : String) : view (s.pollCapacity id tag).1 = view s := by
+  unfold Streams.pollCapacity; dsimp only; view_auto
+
+@[simp] theorem view_pollReset (s : Streams) (id : Nat) (mode : PollReset) (tag : String) :
+    view (s.pollReset id mode tag).1 = view s := by
+  unfold Streams.pollReset; view_auto
+
+@[simp] theorem view_sendRecvStreamWindowUpdate (s : Streams) (id sz : Nat) :
+    view (s.sendRecvStreamWindowUpdate id sz).1 = view s := by
+  unfold Streams.sendRecvStreamWindowUpdate; view_auto
+
+/-- `Send::recv_go_away`: the only writer of `send.max_stream_id` -/
+theorem view_sendRecvGoAway_ok (s : Streams) (last : Nat) (u : Unit) (h : (s.sendRecvGoAway last).2 = .ok u) :
+    view (s.sendRecvGoAway last).1 = { view s with smax := last } ∧ last ≤ (view s).smax := by
+  unfold Streams.sendRecvGoAway at h ⊢
+  split at h
+  · cases h
+  · rename_i hle
+    rw [if_neg hle]
+    exact ⟨rfl, Nat.le_of_not_gt hle⟩
+
+theorem sendRecvGoAway_error (s : Streams) (last : Nat) (e : PErr) (h : (s.sendRecvGoAway last).2 = .error e) :
+    (s.sendRecvGoAway last).1 = s ∧ e = PErr.libraryGoAway PROTOCOL_ERROR := by
+  unfold Streams.sendRecvGoAway at h ⊢
+  split at h
+  · rename_i hgt
+    rw [if_pos hgt]
+    simp at h
+    exact ⟨rfl, h.symm⟩
+  · cases h
+
+@[simp] theorem view_sendHandleError (s : Streams) (id : Nat) : view (s.sendHandleError id) = view s := by
+  unfold Streams.sendHandleError; view_auto
+
+theorem view_tryForEach (f : Streams → Nat → Streams × Option PErr) (hf : ∀ s id, view (f s id).1 = view s)
+    (fuel i len : Nat) (s : Streams) : view (Streams.tryForEach f fuel i len s).1 = view s := by
+  induction fuel generalizing i len s with
+  | zero => simp [Streams.tryForEach]
+  | succ n ih => unfold Streams.tryForEach; view_auto
+
+theorem view_storeTryForEach (s : Streams) (f : Streams → Nat → Streams × Option PErr)
+    (hf : ∀ s id, view (f s id).1 = view s) : view (s.storeTryForEach f).1 = view s := by
+  unfold Streams.storeTryForEach; exact view_tryForEach f hf _ _ _ _
+
+theorem view_storeForEach (s : Streams) (f : Streams → Nat → Streams)
+    (hf : ∀ s id, view (f s id) = view s) : view (s.storeForEach f) = view s := by
+  unfold Streams.storeForEach; exact view_storeTryForEach s _ (fun s id => hf s id)
+
+@[simp] theorem view_decStreamWindow (dec acc : Nat) (s : Streams) (id : Nat) :
+    view (Streams.decStreamWindow dec acc s id).1 = view s := by
+  unfold Streams.decStreamWindow; view_auto
+
+theorem view_tryForEachAcc (f : Nat → Streams → Nat → Streams × Nat × Option PErr)
+    (hf : ∀ acc s id, view (f acc s id).1 = view s)
+    (fuel i len acc : Nat) (s : Streams) : view (Streams.tryForEachAcc f fuel i len acc s).1 = view s := by
+  induction fuel generalizing i len acc s with
+  | zero => simp [Streams.tryForEachAcc]
+  | succ n ih => unfold Streams.tryForEachAcc; view_auto
+
+@[simp] theorem view_sendClearQueues (s : Streams) : view s.sendClearQueues = view s := by
+  unfold Streams.sendClearQueues; simp
+
+@[simp] theorem view_sendMaybeResetNextStreamId (s : Streams) (id : Nat) :
+    view (s.sendMaybeResetNextStreamId id) = view s := by
+  unfold Streams.sendMaybeResetNextStreamId; view_auto
+
+-- ===================================================================== apply_remote_settings (send part)
+
+/-- what a `Send` update does to the view -/
+theorem view_modSend_eq (s : Streams) (f : Send → Send) :
+    view (s.modSend f) = { view s with smax := (f s.actions.send).maxStreamId,
+                                       sInitWin := (f s.actions.send).initWindowSz,
+                                       sPush := (f s.actions.send).isPushEnabled } := rfl
+
+/-- the `initial_window_size` part of `Send::apply_remote_settings` -/
+def sarsMid (s : Streams) (initialWindowSize : Option Nat) : Streams × Option PErr :=
+  match initialWindowSize with
+  | none => (s, none)
+  | some val =>
+    let oldVal := s.actions.send.initWindowSz
+    let s := s.modSend fun sd => { sd with initWindowSz := val }
+    if val < oldVal then
+      let dec := oldVal - val
+      match Streams.tryForEachAcc (Streams.decStreamWindow dec) (2 * s.store.ids.length + 1) 0 s.store.ids.length 0 s with
+      | (s, _, some e) => (s, some e)
+      | (s, total, none) => (s.assignConnectionCapacity total, none)
+    else if val > oldVal then
+      let inc := val - oldVal
+      s.storeTryForEach fun s id =>
+        match s.sendRecvStreamWindowUpdate id inc with
+        | (s, .error r) => (s, some (PErr.libraryGoAway r))
+        | (s, .ok _) => (s, none)
+    else (s, none)
+
+/-- `Send::apply_remote_settings` after the `enable_connect_protocol` part -/
+def sarsTail (s0 : Streams) (iws push : Option Nat) : Streams × Except PErr Unit :=
+  let (s1, res) : Streams × Option PErr := sarsMid s0 iws
+  match res with
+  | some e => (s1, .error e)
+  | none =>
+    let s2 := match push with
+      | some v => s1.modSend fun sd => { sd with isPushEnabled := v != 0 }
+      | none => s1
+    (s2, .ok ())
+
+theorem sendApplyRemoteSettings_eq (s : Streams) (iws push ec : Option Nat) :
+    s.sendApplyRemoteSettings iws push ec =
+      sarsTail (match ec with
+        | some v => s.modSend fun sd => { sd with isExtendedConnectProtocolEnabled := v != 0 }
+        | none => s) iws push := by
+  unfold Streams.sendApplyRemoteSettings sarsTail sarsMid
+  rfl
+
+theorem view_sarsMid (s : Streams) (iws : Option Nat) :
+    view (sarsMid s iws).1 = { view s with sInitWin := iws.getD (view s).sInitWin } := by
+  unfold sarsMid
+  cases iws with
+  | none => rfl
+  | some val =>
+    have h0 : view (s.modSend fun sd => { sd with initWindowSz := val }) = { view s with sInitWin := val } := rfl
+    dsimp only
+    generalize (s.modSend fun sd => { sd with initWindowSz := val }) = s' at h0 ⊢
+    split
+    · split
+      · rename_i h
+        have hv := congrArg (fun p => view (Prod.fst p)) h
+        rw [view_tryForEachAcc _ (view_decStreamWindow _)] at hv
+        simp only [← hv, h0]; rfl
+      · rename_i h
+        have hv := congrArg (fun p => view (Prod.fst p)) h
+        rw [view_tryForEachAcc _ (view_decStreamWindow _)] at hv
+        simp only [view_assignConnectionCapacity, ← hv, h0]; rfl
+    · split
+      · rw [view_storeTryForEach, h0]; rfl
+        intro s id
+        view_auto
+      · exact h0
+
+theorem view_sarsTail (s0 : Streams) (iws push : Option Nat) :
+    view (sarsTail s0 iws push).1 =
+      { view s0 with sInitWin := iws.getD (view s0).sInitWin,
+                     sPush := match (sarsTail s0 iws push).2 with
+                       | .ok _ => (push.map (· != 0)).getD (view s0).sPush
+                       | .error _ => (view s0).sPush } := by
+  unfold sarsTail
+  have hv := view_sarsMid s0 iws
+  rcases h : sarsMid s0 iws with ⟨s1, r⟩
+  rw [h] at hv
+  cases r with
+  | some e => exact hv
+  | none =>
+    cases push with
+    | none => exact hv
+    | some v =>
+      show ({ view s1 with sPush := (v != 0) } : View) = _
+      rw [hv]
+      rfl
+
+/-- `Send::apply_remote_settings`: `init_window_sz` takes the new value (when the frame has one) even
+    when the call fails half-way; `is_push_enabled` is only written at the end -/
+theorem view_sendApplyRemoteSettings (s : Streams) (iws push ec : Option Nat) :
+    view (s.sendApplyRemoteSettings iws push ec).1 =
+      { view s with sInitWin := iws.getD (view s).sInitWin,
+                    sPush := match (s.sendApplyRemoteSettings iws push ec).2 with
+                      | .ok _ => (push.map (· != 0)).getD (view s).sPush
+                      | .error _ => (view s).sPush } := by
+  rw [sendApplyRemoteSettings_eq]
+  cases ec with
+  | none => exact view_sarsTail s iws push
+  | some v => exact view_sarsTail (s.modSend fun sd => { sd with isExtendedConnectProtocolEnabled := v != 0 }) iws push
+
+theorem view_sendApplyRemoteSettings_ex (s : Streams) (iws push ec : Option Nat) :
+    ∃ iw p, view (s.sendApplyRemoteSettings iws push ec).1 = { view s with sInitWin := iw, sPush := p } ∧
+      (∀ u, (s.sendApplyRemoteSettings iws push ec).2 = .ok u →
+        iw = iws.getD (view s).sInitWin ∧ p = (push.map (· != 0)).getD (view s).sPush) := by
+  refine ⟨_, _, view_sendApplyRemoteSettings s iws push ec, ?_⟩
+  intro u hu
+  rw [hu]
+  exact ⟨rfl, rfl⟩
 
 end H2V.Lemmas.ConnCtlP
